@@ -102,12 +102,22 @@ theorem good_readI64 (d : B) (q : Nat) : GoodIn d q readI64 :=
 theorem good_readBool (d : B) (q : Nat) : GoodIn d q readBool :=
   (good_readU d q 1).bind fun _ => GoodIn.pure d q _
 
+/-- the `fp.read(length)` guard of `read_length_block`: a declared length of `2^63` or more raises OverflowError -/
+def roverflow (n : Nat) : R Unit := fun d p => if overflows n d then .error .overflowError else .ok ((), p)
+
+theorem good_roverflow (d : B) (q n : Nat) : GoodIn d q (roverflow n) := by
+  intro p _ hl
+  unfold OkAt roverflow
+  by_cases hov : overflows n d
+  · simp only [hov, if_true]; decide
+  · simp only [hov, if_false]; exact ⟨Nat.le_refl _, hl⟩
+
 /-- `read_length_block` written with the reader monad (the same function) -/
 theorem readLenBlock_eq (pad : Nat) :
-    readLenBlock 0 4 pad = ((readN 0) >>- fun _ => (readU 4) >>- fun n => (readUpTo n) >>- fun x =>
+    readLenBlock 0 4 pad = ((readN 0) >>- fun _ => (readU 4) >>- fun n => (roverflow n) >>- fun _ => (readUpTo n) >>- fun x =>
       if x.length ≠ n then rfail .ioError else (readUpTo (padAmount n pad)) >>- fun _ => rpure x) := by
   funext d p
-  unfold readLenBlock rbind readPadding
+  unfold readLenBlock rbind readPadding roverflow
   cases readN 0 d p with
   | error e => rfl
   | ok a =>
@@ -118,21 +128,25 @@ theorem readLenBlock_eq (pad : Nat) :
     | ok b =>
       obtain ⟨n, p1⟩ := b
       dsimp only
-      cases readUpTo n d p1 with
-      | error e => rfl
-      | ok c =>
-        obtain ⟨x, p2⟩ := c
-        dsimp only
-        split
-        · rfl
-        · dsimp only
-          cases readUpTo (padAmount n pad) d p2 with
-          | error e => rfl
-          | ok e => rfl
+      by_cases hov : overflows n d
+      · simp only [hov, if_true]
+      · simp only [hov, if_false]
+        cases readUpTo n d p1 with
+        | error e => rfl
+        | ok c =>
+          obtain ⟨x, p2⟩ := c
+          dsimp only
+          split
+          · rfl
+          · dsimp only
+            cases readUpTo (padAmount n pad) d p2 with
+            | error e => rfl
+            | ok e => rfl
 
 theorem good_readLenBlock (d : B) (q pad : Nat) : GoodIn d q (readLenBlock 0 4 pad) := by
   rw [readLenBlock_eq]
-  refine (good_readN d q 0).bind fun _ => (good_readU d q 4).bind fun n => (good_readUpTo d q n).bind fun x => ?_
+  refine (good_readN d q 0).bind fun _ => (good_readU d q 4).bind fun n => (good_roverflow d q n).bind fun _ =>
+    (good_readUpTo d q n).bind fun x => ?_
   split
   · exact GoodIn.fail d q _ (by decide)
   · exact (good_readUpTo d q _).bind fun _ => GoodIn.pure d q _
